@@ -16,7 +16,7 @@ static std::string jlist(const std::vector<int>& v) {
 }
 
 static const char* route_name(int r) {
-    static const char* n[] = {"plain", "final", "conv-copy", "conv-move", "copy", "move", "from-derived-object"};
+    static const char* n[] = {"plain", "final", "conv-copy", "conv-move", "copy", "move", "from-derived-object", "held-across-update"};
     return r >= 0 && r < RT_COUNT ? n[r] : "?";
 }
 
@@ -167,6 +167,8 @@ bool monitor_calls(CaseCtx& c, const UpdateResult& u, unsigned flags, int max_tu
     Caps caps = c.w.caps();
     for (size_t m = 0; m < c.r.methods.size(); ++m) {
         auto& me = c.r.methods[m];
+        if (!me.attached)
+            continue;
         std::vector<std::vector<int>> tuples;
         enum_tuples(c.rng, c.r, c.o, me, max_tuples, tuples);
         MethodView mv = c.w.method(c.r, (int)m);
@@ -258,6 +260,8 @@ bool monitor_calls(CaseCtx& c, const UpdateResult& u, unsigned flags, int max_tu
 bool monitor_next(CaseCtx& c, const char* prop) {
     for (size_t m = 0; m < c.r.methods.size(); ++m) {
         auto& me = c.r.methods[m];
+        if (!me.attached)
+            continue;
         MethodView mv = c.w.method(c.r, (int)m);
         int uid = me.shape * NINST + me.inst;
         for (size_t d = 0; d < me.defs.size(); ++d) {
@@ -322,6 +326,8 @@ bool monitor_walk(CaseCtx& c, const UpdateResult& u, const char* prop) {
         std::map<size_t, std::pair<int, int>> used;
         for (size_t m = 0; m < c.r.methods.size(); ++m) {
             auto& me = c.r.methods[m];
+            if (!me.attached)
+                continue;
             for (size_t p = 0; p < me.vp.size(); ++p) {
                 if (!c.o.derives(k, me.vp[p]))
                     continue;
@@ -366,6 +372,8 @@ bool monitor_walk(CaseCtx& c, const UpdateResult& u, const char* prop) {
     // per tuple: composite address arithmetic of multi-methods
     for (size_t m = 0; m < c.r.methods.size(); ++m) {
         auto& me = c.r.methods[m];
+        if (!me.attached)
+            continue;
         if (m2j[m] < 0)
             return fail("method-missing-in-compiler", "method " + std::to_string(m), "present", "absent");
         auto& cm = comp.methods[m2j[m]];
@@ -409,6 +417,8 @@ bool monitor_report(CaseCtx& c, const UpdateResult& u) {
     size_t cells = 0;
     for (size_t m = 0; m < c.r.methods.size(); ++m) {
         auto& me = c.r.methods[m];
+        if (!me.attached)
+            continue;
         MethodView mv = c.w.method(c.r, (int)m);
         const generic_compiler::method* cm = nullptr;
         for (auto& x : comp.methods)
@@ -569,6 +579,111 @@ bool monitor_aborts(CaseCtx& c, int max_cases) {
         }
     }
     return false;
+}
+
+void behaviour(CaseCtx& c, uint64_t seed, int max_tuples, int alias_round, bool with_next, Behaviour& out) {
+    std::map<type_id, int> id2cls;
+    for (int k = 0; k < c.r.n; ++k)
+        for (auto id : c.r.ids[k])
+            id2cls[id] = k;
+    for (size_t m = 0; m < c.r.methods.size(); ++m) {
+        auto& me = c.r.methods[m];
+        if (!me.attached)
+            continue;
+        Rng trng(seed, m);
+        std::vector<std::vector<int>> tuples;
+        enum_tuples(trng, c.r, c.o, me, max_tuples, tuples);
+        MethodView mv = c.w.method(c.r, (int)m);
+        int uid = me.shape * NINST + me.inst;
+        for (auto& t : tuples) {
+            CallSpec cs{};
+            for (size_t i = 0; i < t.size(); ++i) {
+                cs.tuple[i] = t[i];
+                cs.alias[i] = alias_round % (int)c.r.ids[t[i]].size();
+            }
+            cs.nvseed = trng.next();
+            choose_routes(trng, c.r, me, cs, true);
+            set_stage("call");
+            Outcome o = c.w.call(c.r, (int)m, cs);
+            set_stage("monitor");
+            ++out.calls;
+            c.run.evaluations++;
+            c.run.events += (long)o.events.size();
+            std::string row = "m" + std::to_string(m) + " " + jlist(t) + " -> ";
+            if (o.kind == Outcome::RAN && o.events.size() == 1 && o.events[0].muid == uid) {
+                row += "def " + std::to_string(o.events[0].def);
+                int np = g_shapes[me.shape].nparams;
+                for (int i = 0; i < np; ++i)
+                    if (o.events[0].obs[i] != o.expect_obs[i])
+                        row += " ARG" + std::to_string(i) + "-MISMATCH";
+            } else if (o.kind == Outcome::RES_ERR) {
+                row += o.status == 1 ? "no_definition" : o.status == 2 ? "ambiguous" : "status?";
+                row += " arity=" + std::to_string(o.arity) + " types=";
+                for (size_t i = 0; i < o.arity && i < 16; ++i)
+                    row += (id2cls.count(o.types[i]) ? "c" + std::to_string(id2cls[o.types[i]]) : std::string("?")) + ",";
+            } else {
+                row += o.str();
+            }
+            out.rows.push_back(row);
+        }
+        if (with_next)
+            for (size_t d = 0; d < me.defs.size(); ++d) {
+                if (!me.def_live[d])
+                    continue;
+                void* got = c.w.next_of(uid, (int)d);
+                std::string obs = "other";
+                if (got == mv.info->not_implemented)
+                    obs = "not_implemented";
+                else if (got == mv.info->ambiguous)
+                    obs = "ambiguous";
+                else
+                    for (int e = 0; e < MAXDEF; ++e)
+                        if (got == mv.body[e])
+                            obs = "def " + std::to_string(e);
+                out.rows.push_back("m" + std::to_string(m) + " next(def " + std::to_string(d) + ") -> " + obs);
+                c.run.evaluations++;
+            }
+    }
+}
+
+void oracle_behaviour(const Registry& r, const Oracle& o, uint64_t seed, int max_tuples, bool with_next, Behaviour& out) {
+    for (size_t m = 0; m < r.methods.size(); ++m) {
+        auto& me = r.methods[m];
+        if (!me.attached)
+            continue;
+        Rng trng(seed, m);
+        std::vector<std::vector<int>> tuples;
+        enum_tuples(trng, r, o, me, max_tuples, tuples);
+        for (auto& t : tuples) {
+            Sel s = o.select(me, t);
+            std::string row = "m" + std::to_string(m) + " " + jlist(t) + " -> ";
+            if (s.kind == Sel::DEF) {
+                row += "def " + std::to_string(s.def);
+            } else {
+                row += s.kind == Sel::NODEF ? "no_definition" : "ambiguous";
+                row += " arity=" + std::to_string(t.size()) + " types=";
+                for (int c : t)
+                    row += "c" + std::to_string(c) + ",";
+            }
+            out.rows.push_back(row);
+        }
+        if (with_next)
+            for (size_t d = 0; d < me.defs.size(); ++d) {
+                if (!me.def_live[d])
+                    continue;
+                Sel s = o.next(me, (int)d);
+                out.rows.push_back("m" + std::to_string(m) + " next(def " + std::to_string(d) + ") -> " +
+                                   (s.kind == Sel::DEF ? "def " + std::to_string(s.def) : s.kind == Sel::NODEF ? "not_implemented" : "ambiguous"));
+            }
+    }
+}
+
+long first_difference(const Behaviour& a, const Behaviour& b) {
+    size_t n = std::min(a.rows.size(), b.rows.size());
+    for (size_t i = 0; i < n; ++i)
+        if (a.rows[i] != b.rows[i])
+            return (long)i;
+    return a.rows.size() == b.rows.size() ? -1 : (long)n;
 }
 
 bool has_mi(const Registry& r) {
